@@ -491,7 +491,7 @@ func TestC10Corrupt(t *testing.T) {
 		msg, parsed := checkPositions(src)
 		if parsed {
 			st.Class("accepted-mutant")
-		} else {
+		} else if msg == "" {
 			st.Class("failed-parse")
 			if stmts, _ := parser.Parse(src); len(stmts) > 0 {
 				st.Class("failed-parse-with-partial-tree")
